@@ -164,7 +164,7 @@ fn payload(f: &Full, c: &str, v: &str, k: u128, sender: &Addr) -> cosmwasm_std::
         ("vault_router", "next_loan") => bin(&white_whale_std::vault_network::vault_router::ExecuteMsg::NextLoan {
             // the most adversarial payload: the caller names itself as the source vault of a registered asset
             initiator: f.user.clone(), source_vault: sender.to_string(), source_vault_asset_info: f.whale.info(),
-            payload: vec![], to_loan: vec![], loaned_assets: vec![(f.vault.to_string(), f.whale.asset(0))],
+            payload: vec![], to_loan: vec![], loaned_assets: vec![],
         }),
         ("vault_router", "complete_loan") => bin(&white_whale_std::vault_network::vault_router::ExecuteMsg::CompleteLoan {
             initiator: f.user.clone(), loaned_assets: vec![(f.vault.to_string(), f.whale.asset(0))],
